@@ -56,11 +56,11 @@ Qed.
 Lemma p2o_m_ok m d p : nlen d < U32_MOD -> p2o_m m d p = Val (p2o d p).
 Proof. intros H. unfold p2o_m, p2o. apply p2o_loop_m_ok; lia. Qed.
 
-Lemma span_to_range_m_ok m d a b : nlen d < U32_MOD -> 0 <= a < USIZE_MOD - 1 ->
-  span_to_range_m m d a b = Val (o2p d a, o2p d (Z.max b (a + 1))).
+Lemma span_to_range_m_ok m d a b : nlen d < U32_MOD ->
+  span_to_range_m m d a b = Val (o2p d a, o2p d (Z.max b (usat_add a 1))).
 Proof.
-  intros H Ha. unfold span_to_range_m.
-  rewrite o2p_m_ok by exact H. cbn [bind]. rewrite uadd_ok by lia. cbn [bind].
+  intros H. unfold span_to_range_m.
+  rewrite o2p_m_ok by exact H. cbn [bind].
   rewrite o2p_m_ok by exact H. reflexivity.
 Qed.
 
@@ -205,23 +205,29 @@ Lemma inside_iff_valid d p : inside d p <-> valid_pos d p.
 Proof. split; [apply inside_valid | apply valid_inside]. Qed.
 
 Lemma range_wf m d a b :
-  Z.of_nat (length d) < 2 ^ 32 -> 0 <= a < 2 ^ 64 -> Known_C19_span_start_max a = false ->
+  Z.of_nat (length d) < 2 ^ 32 -> 0 <= a < 2 ^ 64 ->
   exists s e, span_to_range_m m d a b = Val (s, e) /\
     pos_le s e /\ valid_pos d s /\ valid_pos d e /\
-    s = o2p d a /\ (a < b -> e = o2p d b) /\ (b <= a -> e = o2p d (a + 1)).
+    s = o2p d a /\ (a < b -> e = o2p d b) /\ (b <= a -> e = o2p d (Z.min (a + 1) (2 ^ 64 - 1))).
 Proof.
-  intros Hd Ha Hk. unfold Known_C19_span_start_max, USIZE_MOD in Hk.
-  exists (o2p d a), (o2p d (Z.max b (a + 1))).
-  split; [apply span_to_range_m_ok; [exact Hd | unfold USIZE_MOD; lia]|].
+  intros Hd Ha.
+  exists (o2p d a), (o2p d (Z.max b (usat_add a 1))).
+  split; [apply span_to_range_m_ok; exact Hd|].
+  unfold usat_add, USIZE_MOD.
   split; [apply o2p_mono_weak; lia|].
   split; [apply inside_valid, o2p_inside|]. split; [apply inside_valid, o2p_inside|].
   split; [reflexivity|]. split; intros H; f_equal; lia.
 Qed.
 
-Lemma range_trap d b : Z.of_nat (length d) < 2 ^ 32 ->
-  span_to_range_m Trap d (USIZE_MOD - 1) b = Trp Overflow.
+(* regression: the formerly failing class start = usize::MAX *)
+Lemma range_usize_max m d b : Z.of_nat (length d) < 2 ^ 32 ->
+  exists s e, span_to_range_m m d (2 ^ 64 - 1) b = Val (s, e) /\ pos_le s e /\
+    s = o2p d (text_blen d) /\ valid_pos d e.
 Proof.
-  intros Hd. unfold span_to_range_m. rewrite o2p_m_ok by exact Hd. reflexivity.
+  intros Hd. destruct (range_wf m d (2 ^ 64 - 1) b Hd ltac:(lia)) as (s & e & H1 & H2 & _ & H4 & H5 & _).
+  exists s, e. repeat split; try assumption.
+  rewrite H5, <- (o2p_clamp d (2 ^ 64 - 1)), <- (o2p_clamp d (text_blen d)). f_equal.
+  pose proof (text_blen_length d). lia.
 Qed.
 
 Lemma counters_fit m d o p : Z.of_nat (length d) < 2 ^ 32 ->
@@ -243,8 +249,8 @@ Proof.
   destruct F as (F1 & F2 & F3 & _ & F5). repeat split; try assumption; try lia; apply F5; assumption.
 Qed.
 
-Lemma render_total m d s e :
-  0 <= s < 2 ^ 64 - 1 -> text_blen d < 2 ^ 64 - 1 -> Z.of_nat (length d) < 2 ^ 32 ->
+Lemma render_total_all m d s e :
+  0 <= s < 2 ^ 64 -> text_blen d < 2 ^ 64 - 1 -> Z.of_nat (length d) < 2 ^ 32 ->
   (exists ln cn t sp ul, caret_m m d s e = Val (ln, cn, t, sp, ul) /\
      line_info_m m d s = Val (ln, cn, t) /\
      1 <= cn <= text_blen t + 1 /\ sp = cn - 1 /\ 1 <= ul /\ sp + ul <= text_blen t + 1 /\
@@ -264,8 +270,19 @@ Proof.
     split; [exact U1|]. split; [exact U2|]. split.
     + apply underline_len_empty.
     + intros H1 H2. rewrite underline_len_clip by lia. reflexivity.
-  - eexists. apply span_to_range_m_ok; [exact Hn | unfold USIZE_MOD; lia].
+  - eexists. apply span_to_range_m_ok; exact Hn.
 Qed.
+
+(* the statement with the hypothesis it had before the repair of span_to_range (used by C11/Render.v) *)
+Lemma render_total m d s e :
+  0 <= s < 2 ^ 64 - 1 -> text_blen d < 2 ^ 64 - 1 -> Z.of_nat (length d) < 2 ^ 32 ->
+  (exists ln cn t sp ul, caret_m m d s e = Val (ln, cn, t, sp, ul) /\
+     line_info_m m d s = Val (ln, cn, t) /\
+     1 <= cn <= text_blen t + 1 /\ sp = cn - 1 /\ 1 <= ul /\ sp + ul <= text_blen t + 1 /\
+     (e <= s -> ul = 1) /\
+     (s <= text_blen d -> s < e -> ul = Z.max 1 (Z.min e (s - sp + text_blen t) - s))) /\
+  (exists r, span_to_range_m m d s e = Val r).
+Proof. intros Hs. apply render_total_all. lia. Qed.
 
 Lemma utf16_column d o :
   (Known_C19_astral_before d o = false -> o2p d o = o2p16 d o) /\
